@@ -21,7 +21,8 @@ theorem stdGuard_tie : GojaModel.Generated.C07.stdGuardCond =
 /-- per method: the condition under which the no-holes fast path is taken — `checkStdArrayObj`
 accepted the receiver and (for the methods that run argument coercions between reading `length` and
 choosing the path) `len(values)` still equals the length read before. These are exactly the
-hypotheses (`stdGuard`, `hL`) of the `*_fast_eq_generic` theorems in PropsMethods. -/
+hypotheses (`stdGuard`, `hL`) of the `*_fast_eq_generic` theorems in PropsMethods; for splice additionally: extensible,
+writable length, and — when the array grows — a prototype chain free of indexed properties (82d13be). -/
 theorem fastPathGuards_tie : GojaModel.Generated.C07.fastPathGuards =
     [("arrayproto_indexOf", "arr != nil && int64(len(arr.values)) == length"),
      ("arrayproto_includes", "arr != nil && int64(len(arr.values)) == length"),
@@ -31,7 +32,7 @@ theorem fastPathGuards_tie : GojaModel.Generated.C07.fastPathGuards =
      ("arrayproto_with", "src != nil && int64(len(src.values)) == length"),
      ("arrayproto_toSpliced", "src != nil && int64(len(src.values)) == length"),
      ("arrayproto_toReversed", "src != nil"),
-     ("arrayproto_splice", "src != nil && int64(len(src.values)) == length && src.extensible && src.lengthProp.writable"),
-     ("arrayproto_reverse", "a != nil")] := by decide
+     ("arrayproto_splice", "src != nil && int64(len(src.values)) == length && src.extensible && src.lengthProp.writable && (itemCount <= actualDeleteCount || r.checkStdArrayObjWithProto(o) != nil)"),
+     ("arrayproto_reverse", "a != nil")] := by rfl
 
 end GojaModel.C07
